@@ -43,11 +43,16 @@ def plan(tier, seed):
     for i in range(2 if tier == "quick" else 12):
         items.append(dict(date=str(dates[(i * 7) % len(dates)]), k=1000 + i, seed=seed, n_hh=1, rotations=False,
                           all_orders=True, archetype=arch[i % len(arch)]))
+    # size-dependent code paths: one population with more than 4096 rows (two orders only)
+    for i in range(1 if tier == "quick" else 3):
+        items.append(dict(date=str(dates[(3 + i * 5) % len(dates)]), k=2000 + i, seed=seed, n_hh=1450, rotations=False, large=True))
     return items
 
 
 def _orders(rng, df, rotations, all_orders=False):
     n = len(df)
+    if all_orders == "large":
+        return [("identity+labels", np.arange(n)), ("random0", rng.permutation(n))]
     if all_orders:
         import itertools
 
@@ -104,7 +109,7 @@ def run_item(item):
     res = dict(date=item["date"], k=item["k"], persons=len(df), households=int(df.hh_id.nunique()),
                pop=popgen.digest(df), runs=0, nodes=len(nodes), nodes_compared=0, noise=0,
                amplified=[], violations=[], cases=[], float_noise_nodes=set())
-    for li, (name, perm) in enumerate(_orders(rng, df, item["rotations"], item.get("all_orders", False))):
+    for li, (name, perm) in enumerate(_orders(rng, df, item["rotations"], "large" if item.get("large") else item.get("all_orders", False))):
         dfp = df.iloc[perm].copy()
         dfp.index = _labels(rng, len(df), li % 4)
         if li % 2 == 1:
@@ -188,6 +193,7 @@ def summarize(results, tier, seed):
         dates=sorted({r["date"] for r in ok}),
         populations=len({r["pop"] for r in ok}),
         runs_with_columns_needing_conversion=sum(r.get("runs_with_converted_columns", 0) for r in ok),
+        large_populations=[r["persons"] for r in ok if r["_item"].get("large")],
         populations_with_all_row_orders=[(r["persons"], r["runs"]) for r in ok if r["_item"].get("all_orders")],
         node_comparisons=compared,
         float_sum_noise_events=noise,
